@@ -610,10 +610,10 @@ def slot_term(s):
         kind = "(KEmbedded %s)" % cstr(emb[1])
     elif emb and emb[0] == "many":
         kind = "(KListEmbedded %s)" % cstr(emb[1])
-    elif emb and emb[0] in ("extensions", "stix_objects", "observables"):
+    elif emb and emb[0] in ("extensions", "stix_objects", "observables", "dict"):
         if emb[1] not in ("2.0", "2.1"):
             raise TranslateError("slot %s: spec_version %r" % (s["name"], emb[1]))
-        kind = "(%s %s)" % ({"extensions": "KExtensions", "stix_objects": "KStixObjects", "observables": "KObservables"}[emb[0]],
+        kind = "(%s %s)" % ({"extensions": "KExtensions", "stix_objects": "KStixObjects", "observables": "KObservables", "dict": "KDict"}[emb[0]],
                             "true" if emb[1] == "2.0" else "false")
     return "{| s_name := %s; s_required := %s; s_default := %s; s_ref := %s; s_kind := %s |}" % (
         ustr(s["name"]), "true" if s["required"] else "false", "true" if s["default"] else "false", ref, kind)
